@@ -37,7 +37,9 @@ TOLERANCES = {"energy": 1e-12,                 # [1.7e-16]
               "ms-nonabsorbing-cabs": 3e-3,    # [6.2e-5] of Cext
               # an oblique dimer (Csca summed analytically from the cluster
               # coefficients): truncation of the expansions only
-              "ms-nonabsorbing-cabs-analytic": 1e-4}
+              "ms-nonabsorbing-cabs-analytic": 1e-4,
+              # C_sca, C_ext, g C_sca re-derived from calc_scat_matrix
+              "ms-matrix-integrals": 1e-10}    # [6.1e-14]
 TOL = TOLERANCES
 TIMEOUT = 900
 
@@ -543,6 +545,49 @@ def _run_msobl(case, ck):
                     % (pol, "tight" if kw else "default", got[1], got[2],
                        got[0]))
             res.append(got)
+    # the same numbers from the amplitude scattering matrix that
+    # calc_scat_matrix returns (Bohren & Huffman's convention: [[S2, S3],
+    # [S4, S1]] acting on the incident components parallel and
+    # perpendicular to the scattering plane, e_perp = sin(phi) x - cos(phi)
+    # y): forward amplitude <-> C_ext, solid-angle integrals <-> C_sca and
+    # <cos theta>.  S3 and S4 do not vanish for this dimer.
+    import holopy as hp
+    from holopy.scattering import calc_scat_matrix
+    k = 2 * math.pi * nmed / wl
+    pol = np.asarray(OBL_POLS[case["i"]], dtype=float)
+    pol = pol / math.sqrt(float((pol ** 2).sum()))
+    tight = Multisphere(eps=1e-12, qeps1=1e-12, qeps2=1e-14)
+    nodes, wts = np.polynomial.legendre.leggauss(48)
+    nphi = 64
+    phis = 2 * math.pi * np.arange(nphi) / nphi
+    TH, PH = np.meshgrid(np.arccos(nodes), phis, indexing="ij")
+    det = hp.detector_points(theta=np.append(TH.ravel(), 0.0),
+                             phi=np.append(PH.ravel(), 0.0))
+    S = calc_scat_matrix(det, clus, nmed, wl, theory=tight).values
+    ck.trans += 1
+    ph = np.append(PH.ravel(), 0.0)
+    epar = pol[0] * np.cos(ph) + pol[1] * np.sin(ph)
+    eper = pol[0] * np.sin(ph) - pol[1] * np.cos(ph)
+    spar = S[:, 0, 0] * epar + S[:, 0, 1] * eper
+    sper = S[:, 1, 0] * epar + S[:, 1, 1] * eper
+    inten = (abs(spar) ** 2 + abs(sper) ** 2)[:-1].reshape(TH.shape)
+    W = wts[:, None] * (2 * math.pi / nphi)
+    csca_i = float((W * inten).sum()) / k ** 2
+    g_i = float((W * inten * nodes[:, None]).sum()) / k ** 2 / csca_i
+    # forward direction (theta = 0, phi = 0): e_par = x, e_perp_s = -y
+    fwd = pol[0] * spar[-1] - pol[1] * sper[-1]
+    cext_i = 4 * math.pi / k ** 2 * float(fwd.real)
+    csca, cabs, cext, g = [float(v) for v in res[-1]]
+    for name, a, b, tol in (("csca", csca_i, csca, TOL["ms-matrix-integrals"]),
+                            ("cext", cext_i, cext, TOL["ms-matrix-integrals"]),
+                            ("g", g_i * csca, g * csca,
+                             TOL["ms-matrix-integrals"])):
+        e = abs(a - b) / abs(cext)
+        ck.metric("ms-matrix-" + name, e)
+        ck.true("ms-matrix-" + name, e <= tol, "oblique dimer, polarization "
+                "%r: %s from the scattering matrix of calc_scat_matrix is "
+                "%r, calc_cross_sections gives %r (rel. to Cext %.2e)" %
+                (OBL_POLS[case["i"]], name, a, b, e))
     return digest(np.asarray(res, dtype=float))
 
 
